@@ -400,6 +400,15 @@ class Lexer:
             text = match.group(1)
             if text:
                 self.append_node(parsetree.Text, text)
+            elif (
+                match.end() == match.start()
+                and match.start() < self.textlength
+            ):
+                # an empty match ahead of something that looks like the
+                # start of a directive, which none of the other matchers
+                # accepted as one.  match_reg() steps over one character
+                # so that parsing proceeds; that character is plain text
+                self.append_node(parsetree.Text, self.text[match.start()])
             return True
         else:
             return False
